@@ -211,6 +211,9 @@ def _fuzz_job(modname, tier, part_idx, part, shard, seedval):
         with open(out, "rb") as f:
             res = pickle.load(f)
         res["part"] = part.name
+        if b"ERROR: libFuzzer" in p.stdout:  # the campaign stopped before its time was up: say so in the evidence
+            why = "fuzz campaign ended early (libFuzzer stopped the child)"
+            res["inconclusive"][why] = res["inconclusive"].get(why, 0) + 1
         return res
     finally:
         shutil.rmtree(work, ignore_errors=True)
